@@ -9,10 +9,12 @@ import (
 	"os"
 	"reflect"
 	"sort"
+	"strings"
 	"sync"
 	"time"
 
 	"github.com/rulego/streamsql"
+	"github.com/rulego/streamsql/logger"
 	"github.com/rulego/streamsql/verifhook"
 )
 
@@ -288,4 +290,29 @@ func newInstance(opts ...streamsql.Option) *streamsql.Streamsql {
 	newMu.Lock()
 	defer newMu.Unlock()
 	return streamsql.New(opts...)
+}
+
+// capLog is the per-instance logger of a scenario: it keeps the engine's reports of panics it recovered from in its own
+// goroutines (a recovered panic loses the row or the batch that was being processed).
+type capLog struct {
+	mu     sync.Mutex
+	panics []string
+}
+
+func (c *capLog) Debug(string, ...any) {}
+func (c *capLog) Info(string, ...any)  {}
+func (c *capLog) Warn(string, ...any)  {}
+func (c *capLog) Error(format string, args ...any) {
+	msg := fmt.Sprintf(format, args...)
+	if strings.Contains(strings.ToLower(msg), "panic") {
+		c.mu.Lock()
+		c.panics = append(c.panics, msg)
+		c.mu.Unlock()
+	}
+}
+func (c *capLog) SetLevel(logger.Level) {}
+func (c *capLog) Panics() []string {
+	c.mu.Lock()
+	defer c.mu.Unlock()
+	return append([]string(nil), c.panics...)
 }
